@@ -333,6 +333,7 @@ class Fn:
             ctx.planned[name] = self.fault_exc
         self.fl = spec.get("fl", "def") if side == "a" else "def"
         self.seen_args = []
+        self.invoked = 0   # how often the callable object itself was called (its awaitable may never be awaited)
         self.callable = self._build()
 
     def _result(self, args):
@@ -360,17 +361,26 @@ class Fn:
         if fl == "def":
 
             def plain(*args):
+                self.invoked += 1
                 return self._result(args)
 
             return plain
 
-        async def coro(*args):
+        async def body(*args):
             for _ in range(self.susp):
                 await self.ctx.suspend((self.name, "call"))
             return self._result(args)
 
+        def coro(*args):
+            self.invoked += 1
+            return body(*args)
+
         if fl == "async":
-            return coro
+            async def counted(*args):
+                self.invoked += 1
+                return await body(*args)
+
+            return counted
         if fl == "partial":
 
             async def coro2(_extra, *args):
